@@ -1,0 +1,8 @@
+//go:build verif
+
+package bridgeservice
+
+import "net/http"
+
+// VerifHandler exposes the service's HTTP handler (the real routes and handlers) to the verification harness.
+func (b *BridgeService) VerifHandler() http.Handler { return b.router }
